@@ -214,43 +214,82 @@ class Ctx:
         self.ncorpus = ncorpus
         return cases
 
-    def exec_impl(self, cases):
-        to = getattr(self.prop, "EXEC_TIMEOUT", 900)
-        try:
-            rc, out, err = run([self.bin, "exec"], inp="\n".join(cases) + "\n", timeout=to)
-        except subprocess.TimeoutExpired:
-            return self.exec_bisect(cases)
-        lines = out.split("\n")
-        if lines and lines[-1] == "":
-            lines.pop()
-        if rc != 0 or len(lines) != len(cases):
-            # the harness process died (abort / stack overflow): bisect to the killing case
-            return self.exec_bisect(cases)
-        return lines
+    def exec_impl(self, cases, timeout=None):
+        """one harness process for the whole batch, watched line by line (see exec_bisect)"""
+        return self.exec_bisect(cases)
+
+    def _run_part(self, part, case_to):
+        """run the harness on `part`, reading its output as it comes: the harness prints (and flushes) one line per
+        case, so `case_to` seconds without a new line mean the current case hangs.
+        -> (complete lines printed, finished_ok, hung)"""
+        import select
+        import threading
+        p = subprocess.Popen([self.bin, "exec"], stdin=subprocess.PIPE, stdout=subprocess.PIPE, stderr=subprocess.DEVNULL,
+                             env=dict(os.environ, CARGO_NET_OFFLINE="true"))
+
+        def feed():
+            try:
+                p.stdin.write(("\n".join(part) + "\n").encode())
+                p.stdin.close()
+            except Exception:
+                pass
+        threading.Thread(target=feed, daemon=True).start()
+        buf = b""
+        hung = False
+        fd = p.stdout.fileno()
+        last = time.time()
+        while True:
+            r, _, _ = select.select([fd], [], [], 1.0)
+            if r:
+                chunk = os.read(fd, 1 << 16)
+                if not chunk:
+                    break
+                if b"\n" in chunk:
+                    last = time.time()
+                buf += chunk
+            elif time.time() - last > case_to:
+                hung = True
+                p.kill()
+                break
+        p.wait()
+        lines = buf.decode(errors="replace").split("\n")
+        complete = lines[:-1] if lines else []
+        return complete, (not hung and p.returncode == 0 and len(complete) == len(part)), hung
 
     def exec_bisect(self, cases):
-        """run in chunks; a chunk that dies or hangs is halved until the single killing case is isolated,
-        which is then reported as the observation `crash:rc=..` or `hang`"""
+        """A harness process died or hung. The harness flushes one line per case, so the number of complete lines
+        printed names the killing case; that case is re-run alone to confirm (observation `hang` / `crash:rc=..`),
+        otherwise the chunk is halved. After a few confirmed killers the rest is not run (each costs a timeout)."""
         case_to = getattr(self.prop, "CASE_TIMEOUT", 20)
-        step = max(1, len(cases) // 16)
-        todo = [(i, cases[i:i + step]) for i in range(0, len(cases), step)]
+        max_killers = getattr(self.prop, "MAX_KILLERS", 4)
         res = [None] * len(cases)
+        todo = [(0, cases)]
+        killers = 0
         while todo:
             off, part = todo.pop(0)
-            try:
-                rc, out, err = run([self.bin, "exec"], inp="\n".join(part) + "\n", timeout=case_to + 0.02 * len(part))
-                hung = False
-            except subprocess.TimeoutExpired:
-                rc, out, hung = -9, "", True
-            lines = out.split("\n")
-            if lines and lines[-1] == "":
-                lines.pop()
-            if rc == 0 and len(lines) == len(part):
+            if killers >= max_killers:
+                for i in range(len(part)):
+                    res[off + i] = "skipped-after-%d-killers" % killers
+                continue
+            lines, ok, hung = self._run_part(part, case_to)
+            if ok:
                 res[off:off + len(part)] = lines
-            elif len(part) == 1:
-                res[off] = "hang" if hung else "crash:rc=%s" % rc
+                continue
+            k = min(len(lines), len(part) - 1)
+            if len(part) == 1:
+                res[off] = "hang" if hung else "crash"
+                killers += 1
+                continue
+            # confirm the suspected killer alone
+            l1, ok1, hung1 = self._run_part([part[k]], case_to)
+            if not ok1:
+                res[off:off + k] = lines[:k]
+                res[off + k] = "hang" if hung1 else "crash"
+                killers += 1
+                if k + 1 < len(part):
+                    todo.insert(0, (off + k + 1, part[k + 1:]))
             else:
-                h = len(part) // 2
+                h = len(part) // 2           # output was not reliable for this chunk: plain bisection
                 todo = [(off, part[:h]), (off + h, part[h:])] + todo
         return res
 
@@ -273,9 +312,9 @@ class Ctx:
             raise RuntimeError(f"oracle driver failed rc={rc} lines={len(lines)}/{len(cases)}: {err[-2000:]}")
         return lines
 
-    def evaluate(self, cases):
+    def evaluate(self, cases, timeout=None):
         """-> list of dicts {case, impl, model, oracle, kind} ; kind in ok|oracle|diff"""
-        impl = self.exec_impl(cases)
+        impl = self.exec_impl(cases, timeout)
         model = self.run_model(cases)
         oracle = self.run_oracle(cases, impl)
         cmp_fn = getattr(self.prop, "agree", None)
@@ -301,8 +340,8 @@ class Ctx:
                 break
             cands = cands[:64]
             steps += len(cands)
-            try:
-                rs = self.evaluate(cands)
+            try:   # candidates of a hanging case may hang too: short batch timeout, then per-case isolation
+                rs = self.evaluate(cands, timeout=getattr(self.prop, "CASE_TIMEOUT", 20) + 2)
             except Exception:
                 break
             nxt = None
